@@ -10,12 +10,12 @@
 From Coq Require Import List NArith ZArith QArith Bool.
 Import ListNotations.
 
-Definition word := N.
+Notation word := N (only parsing).
 Definition UNK : word := 0%N.
 Definition BOS : word := 1%N.
 Definition EOS : word := 2%N.
-Definition gram := list word.
-Definition corpus := list (list word).
+Notation gram := (list N) (only parsing).
+Notation corpus := (list (list N)) (only parsing).
 
 (* SuffixOrder::Compare on equal-length n-grams = lexicographic order on the reversed representation *)
 Fixpoint cmp (a b : gram) : comparison :=
@@ -37,6 +37,13 @@ Fixpoint ins (g : gram) (l : list gram) : list gram :=
   end.
 Definition sort_uniq (l : list gram) : list gram := fold_right ins [] l.
 
+(* length of the longest common prefix (FindDifference in adjust_counts.cc walks it from the newest word) *)
+Fixpoint lcp (a b : gram) : nat :=
+  match a, b with
+  | x :: a', y :: b' => if (x =? y)%N then S (lcp a' b') else O
+  | _, _ => O
+  end.
+
 Fixpoint sumN (l : list N) : N := match l with [] => 0%N | x :: t => (x + sumN t)%N end.
 Definition QN (n : N) : Q := inject_Z (Z.of_N n).
 Definition lenN {A} (l : list A) : N := N.of_nat (length l).
@@ -53,7 +60,7 @@ Fixpoint sent_events (hist : gram) (s : list word) : list gram :=
 Definition events (c : corpus) : list gram := flat_map (fun s => sent_events [BOS] (clean s)) c.
 
 (* ---- options of lmplz that the property quantifies over *)
-Definition disc := (Q * Q * Q)%type.            (* D1, D2, D3+ *)
+Notation disc := (Q * Q * Q)%type (only parsing).            (* D1, D2, D3+ *)
 Record options := mkOpts {
   o_prune : list N;               (* pruning thresholds per order (after ParsePruning's padding) *)
   o_limit : option (list word);   (* --limit_vocab_file: the allowed ids; None = option absent *)
